@@ -1,6 +1,7 @@
 from common import COMMON_ASSUME
 
 PROP = dict(
+    technique='property-based testing: bit-exact / relative-error oracle evaluated exactly in long double over class-structured doubles',
     harness=['c07_float.c'],
     level_text=('generated-input search over arrays of IEEE-754 doubles built '
                 'from separately drawn sign / exponent-field / mantissa-field '
